@@ -413,8 +413,8 @@ def run(ctx):
                     f"the caller changes in place between calls (a size sweep); calls so far (rows, cols, numpy seed): {sweep}",
                     dict(rows=sweep[-1][0], cols=sweep[-1][1], sweep=sweep, reused_shape_array=True))
     # very long walks (a legal execution however unlikely): any step budget / cap / restart logic shows here
-    for (r, c) in [(2, 2), (2, 3), (3, 3), (4, 4), (3, 6)] + ([] if ctx.quick else [(5, 5), (6, 6), (8, 8)]):
-        sc = long_walk_script(r, c, 40 * r * c + 7)
+    for (r, c) in [(1, 4), (2, 2), (2, 3), (3, 3), (4, 4), (3, 6)] + ([] if ctx.quick else [(5, 5), (6, 6), (8, 8)]):
+        sc = long_walk_script(r, c, max(40 * r * c + 7, 70 * (r * c) ** 2 + 11 if r * c <= 16 else 0))
         if sc is None: continue
         from maze_dataset.generation.generators import LatticeMazeGenerators as LG
         with WTap(sc, then_random=ctx.rng) as t:
